@@ -114,6 +114,46 @@ def sec_result_apply(rep):
                         return res
 
                     rep.check(f"C17/{cls}Result.apply_pdf/post/pids={npid}/provided={''.join('y' if h_ else 'n' for h_ in have)}/grid={ng}/orders={len(keys)}", case, sy, pre, sides=(npid == 1 and ng == 1))
+    # concrete companions of the symbolic cases: exact central scales given as int / float / numpy
+    # scalars, integer Q2, a PDF lacking flavours, one point on a one-node grid -- the same formula
+    import numpy as _np
+
+    class NumPDF:
+        def __init__(s, flavors):
+            s.flavors = set(flavors)
+
+        def hasFlavor(s, pid):
+            return pid in s.flavors
+
+        def xfxQ2(s, pid, x, Q2):
+            return (0.3 + 0.01 * pid) * x**0.5 * (1 - x) ** 2 * (1 + 0.1 * _np.log(Q2))
+
+    a_s = lambda mu: 0.3 / (1 + 0.2 * _np.log(mu))  # noqa: E731
+    a_em = lambda mu: 0.0078 * (1 + 0.001 * mu)  # noqa: E731
+    keys = [(0, 0, 0, 0), (1, 0, 0, 0), (1, 0, 1, 0), (2, 0, 0, 1), (2, 1, 2, 0), (2, 0, 1, 2)]
+    rng = _np.random.default_rng(5)
+    for cls in ("ESF", "EXS"):
+        for xiR, xiF in ((1, 1), (1.0, 1.0), (_np.float64(1.0), 1), (2, 0.5), (1, 2.0), (0.5, 1)):
+            for Q2 in (10, 10.0, _np.float64(3.5)):
+                for npid, ng in ((1, 1), (3, 2)):
+                    rep.cases += 1
+                    pids = [21, 2, -1][:npid]
+                    xgrid = [0.1, 0.4][:ng]
+                    orders = {k: (rng.normal(size=(npid, ng)), abs(rng.normal(size=(npid, ng)))) for k in keys}
+                    flavors = set(pids[: max(1, npid - 1)]) if npid > 1 else set(pids)
+                    r = ESFResult(0.3, Q2, 4, orders) if cls == "ESF" else EXSResult(0.3, Q2, 0.5, 4, orders)
+                    try:
+                        out = r.apply_pdf(NumPDF(flavors), pids, xgrid, a_s, a_em, xiR, xiF)
+                        exp = [0.0, 0.0]
+                        for o, ve in orders.items():
+                            pref = (a_s(float(Q2) ** 0.5 * float(xiR)) / (4 * math.pi)) ** o[0] * a_em(float(Q2) ** 0.5 * float(xiR)) ** o[1] * math.log(1 / float(xiR) ** 2) ** o[2] * math.log(1 / float(xiF) ** 2) ** o[3]
+                            for w in (0, 1):
+                                exp[w] += pref * sum(ve[w][a, j] * NumPDF(flavors).xfxQ2(p_, xgrid[j], float(Q2) * float(xiF) ** 2) / xgrid[j] for a, p_ in enumerate(pids) if p_ in flavors for j in range(ng))
+                        ok = abs(out["result"] - exp[0]) <= 1e-12 * max(1, abs(exp[0])) and abs(out["error"] - exp[1]) <= 1e-12 * max(1, abs(exp[1])) and out["x"] == 0.3 and out["Q2"] == Q2 and (cls == "ESF" or out["y"] == 0.5)
+                        detail = f"result {out['result']!r} expected {exp[0]!r}"
+                    except Exception as e:  # noqa
+                        ok, detail = False, repr(e)
+                    rep.add(ob_eval(f"C17/{cls}Result.apply_pdf/concrete/xiR={xiR!r},xiF={xiF!r},Q2={Q2!r}/pids={npid}/grid={ng}", ok, detail=detail, inputs={} if ok else {"xiR": repr(xiR), "xiF": repr(xiF), "Q2": repr(Q2), "observed": detail}))
     # Q2 not a number -> ValueError
     r = ESFResult(0.1, None, 4, {})
     try:
